@@ -1,5 +1,6 @@
 """C13 - an imported SBML file has the semantics of the SBML document."""
 import os
+import re
 import tempfile
 import warnings
 
@@ -9,7 +10,7 @@ import numpy as np
 from common import driver_batch, relerr, r2s
 import sbml_eval
 
-SP = ["A", "B", "C", "D"]
+SP_ = ["A", "B", "C", "D"]
 LAWS = ["{k} * {s0} * {s1}", "{k} * {s0}^2 / (1 + {s1})", "{k} * exp(-{s0} / 5)", "{k} * {s0} + {k2}", "abs({k}) * {s0} / ({k2} + {s1})",
         "{k} * {s0} * {m}", "{k}"]
 
@@ -21,6 +22,9 @@ def gen_doc(rng, path):
     m.setId("generated_doc")
     c = m.createCompartment(); c.setId("cell"); c.setSize(1.0); c.setConstant(True); c.setSpatialDimensions(3)
     desc = {"species": [], "globals": {}, "reactions": [], "rules": []}
+    # species identifiers are arbitrary: short lower-case ones are ordinary in hand-written documents
+    nm = {"A": rng.choice(["A", "A", "m", "vol"]), "B": rng.choice(["B", "B", "lum", "u"]), "C": rng.choice(["C", "C", "met"])}
+    SP = [nm.get(s, s) for s in SP_]
     for s in SP + ["R1", "R2"]:
         sp = m.createSpecies(); sp.setId(s); sp.setCompartment("cell"); sp.setConstant(False); sp.setBoundaryCondition(False)
         sp.setHasOnlySubstanceUnits(False)
@@ -88,6 +92,7 @@ def gen_doc(rng, path):
             continue
         var = rng.choice(pool); used.add(var)
         math = rng.choice(["A + B", "2 * k * A", "k2 * C / (1 + A)", "3", "A * B - k"])
+        math = re.sub(r"[A-Za-z_][A-Za-z_0-9]*", lambda mo: nm.get(mo.group(0), mo.group(0)), math)
         rule = m.createAssignmentRule() if kd == "assignment" else m.createRateRule()
         rule.setVariable(var); rule.setMath(libsbml.parseL3Formula(math))
         desc["rules"].append({"kind": kd, "var": var, "math": math})
@@ -136,6 +141,9 @@ def one(ctx, rng, tmpdir):
     sd = M.get_species_dictionary()
     for s in desc["species"]:
         want = s["amount"] if (s["amount"] is not None and s["amount"] != 0) else (s["conc"] if s["conc"] is not None else (s["amount"] or 0.0))
+        if s["id"] not in sd:
+            ctx.violation("species-missing", "species %s of the document is not a species of the imported model (%s)" % (s["id"], sorted(sd)), rep)
+            return
         if float(sd[s["id"]]) != float(want):
             ctx.violation("initial-value", "species %s is imported with %r, the document says amount=%r concentration=%r" % (s["id"], sd[s["id"]], s["amount"], s["conc"]), rep)
             return
